@@ -28,7 +28,13 @@ SIZES = [0, 1, 2, 3, 7]
 
 
 IDIOMS = ["reshape_to_sibling_shape", "expand_to_sibling_shape", "reshape_own_shape", "slice_full", "concat_head_minus1", "cos_cast", "binop_after_expand",
-          "gather_dim_arith"]
+          "gather_dim_arith", "expand_const_target", "reshape_const_target"]
+
+
+# hosts of the rewrite rules whose conditions look at shapes / symbolic dims: each gets shards of its own (symbolic inputs, all bindings)
+SHAPE_RULE_HOSTS = ["host_scatter_dynamic", "host_scatter_static", "host_reshape_reshape", "host_materialize_reshape", "host_flatten",
+                    "host_expand_before_binary_op", "host_expand", "host_squeeze_reshape", "host_slice1", "host_slice2", "host_slice_split",
+                    "host_cast_cos", "host_one_reshape_matmul", "host_two_reshapes_matmul", "host_matmul_add", "host_unsqueeze_unsqueeze"]
 
 
 def _plant_symbolic_idioms(g, kind=None):
@@ -52,7 +58,16 @@ def _plant_symbolic_idioms(g, kind=None):
     sx = g.emit("Shape", [x])
     if not sy or not sx:
         return None
-    if k == "reshape_to_sibling_shape":
+    if k == "expand_const_target":
+        # a CONSTANT target equal to the sample shape: the model accepts N == n and N == 1 (broadcast), only the former is a no-op
+        t = [n, m]
+        if g.chance(4):
+            t = [1] + t
+        r = g.emit("Expand", [g.emit("Relu", [x])[0] if dt == F32 and g.chance(5) else x, c(t)])
+    elif k == "reshape_const_target":
+        # constant target with 0 (copy) / -1 entries over symbolic input dims
+        r = g.emit("Reshape", [x, c(g.pick([[0, -1], [-1, m], [n, -1], [0, m], [-1]]))])
+    elif k == "reshape_to_sibling_shape":
         r = g.emit("Reshape", [x, sy[0]])
     elif k == "expand_to_sibling_shape":
         r = g.emit("Expand", [x, sy[0]])
@@ -97,7 +112,8 @@ def plan(tier, seed, budget):
     shards = 16 if tier == "quick" else 64
     # general shards + dedicated shards, one per shape idiom (construction, not rejection: the idiom is planted first and is an output)
     reps = 1 if tier == "quick" else 8
-    return [{"n": max(1, n // shards)} for _ in range(shards)] + [{"n": max(5, n // (shards * 3)), "idiom": k} for k in IDIOMS for _ in range(reps)]
+    return ([{"n": max(1, n // shards)} for _ in range(shards)] + [{"n": max(5, n // (shards * 3)), "idiom": k} for k in IDIOMS for _ in range(reps)]
+            + [{"n": max(30, n // shards), "host": h} for h in SHAPE_RULE_HOSTS for _ in range(reps)])
 
 
 def bindings_for(gm, seed, cap=60):
@@ -213,6 +229,17 @@ def run_shard(spec):
     cfg = _cfg()
     if spec.get("idiom"):
         cfg.update(pre=lambda g: _plant_symbolic_idioms(g, spec["idiom"]), min_inputs=0, max_inputs=1, max_nodes=4, min_nodes=0)
+    if spec.get("host"):
+        from vf.rulehosts import planters
+
+        host = next(p for p in planters() if p.__name__ == spec["host"])
+
+        def pre(g, host=host):
+            r = host(g)
+            if r:  # the host's results are graph outputs
+                g.__dict__.setdefault("forced", []).extend(v for v in r if isinstance(getattr(v, "arr", None), np.ndarray) and v.kind == "node")
+
+        cfg.update(pre=pre, min_inputs=0, max_inputs=1, max_nodes=3, min_nodes=0)
     drive(st.tuples(optcommon.option_tuples(["optimize", "optimize", "optimize_ir", "fold_constants_si", "rewrite"]), modelgen.models(cfg)), body, spec["n"], spec["seed"])
     return col.result()
 
